@@ -2507,6 +2507,14 @@ impl ModuleGraph {
             js_module.fast_check = None;
           }
           js_module.maybe_types_dependency = None;
+          // the source map is loaded in a code only graph as well
+          if let Some(Resolution::Ok(resolved)) = js_module
+            .maybe_source_map_dependency
+            .as_ref()
+            .map(|d| &d.dependency)
+          {
+            seen_pending.add(resolved.specifier.clone());
+          }
           handle_dependencies(&mut seen_pending, &mut js_module.dependencies);
         }
         Module::Wasm(wasm_module) => {
